@@ -74,4 +74,14 @@ CHECKS['C05'] = {
   'technique': 'per-path event counting/ordering (COUNT/ORDER), traversal coverage by loop-shape analysis, pointer-origin analysis',
 }
 
+CHECKS['C01'] = {
+  'text': 'Decides the structural necessary conditions of safe collection: mark-phase order and coverage, inclusive stack scan '
+          'in both directions (loop headers evaluated for symbolic bounds), trace-on-first-mark, Mark-instance-or-every-word '
+          'tracing with a field-checked skip list, recursing marking callbacks, full-coverage container Mark instances, sweep '
+          'guard / mark-before-sweep / marks cleared, root flags, candidate range, stack bottom. Native-stack recursion of the '
+          'marker is a recorded known finding. Does not decide what the compiler keeps in scanned words.',
+  'note': ASSUME + '; conservative scanning sees every live pointer the compiler keeps in registers/stack (not decidable here)',
+  'technique': 'must-pass/dominance cuts, partial evaluation of loop headers, call-graph cycle detection, slot-addressed coverage rules',
+}
+
 NOT_APPLICABLE = {}
